@@ -421,6 +421,27 @@ def setter(rep, c, sfx, ctors):
     if not setters:
         r.lost("a public function storing into CALL_LIMIT")
         return
+    # who may call it: the limit is process-wide, so it is the application's to set - no library crate of the workspace
+    # (meta, vm, generator, derive, debugger library) calls the setter; one that did would bound every later parse in
+    # the process (and the VM, which spends more calls per input than generated code, would start to disagree with it)
+    f_all = facts.facts("default")
+    setter_paths = set(b["path"] for b in setters)
+    for cname in ("pest", "pest_meta", "pest_vm", "pest_generator", "pest_derive", "pest_debugger", "pest_grammars"):
+        try:
+            cr = f_all.crate(cname)
+        except Exception:
+            cr = None
+        if cr is None:
+            continue
+        r.instance("callers:" + cname, "", "scanned")
+        for b2 in cr.bodies:
+            if b2.get("body") is None or "::tests::" in b2["path"] or b2.get("exp") or b2.get("test"):
+                continue
+            for x in walk(b2["body"]):
+                if kind(x) in ("Call", "MethodCall") and callee(x) in setter_paths:
+                    r.violation("callers:%s" % b2["path"], where(x),
+                                "%s sets the process-wide call limit: every later parse in the process is bounded by it "
+                                "(a library must not change what `no limit` means for its callers)" % b2["path"])
     for b in setters:
         key = b["name"]
         pe = PathEnum(b, inline_closures=False)
